@@ -132,7 +132,7 @@ func (in *Interp) idxIn(idx *Term, set []int) *Term {
 
 func (in *Interp) symStore(sp SymElemPtr, v Val) {
 	i := in.Concretize(sp.idx)
-	sp.cells[i] = copyVal(v)
+	storeInto(&sp.cells[i], v)
 }
 
 func (in *Interp) binop(op token.Token, xt types.Type, x, y Val) Val {
@@ -928,7 +928,9 @@ func (in *Interp) callBuiltin(caller *frame, b *ssa.Builtin, args []Val) Val {
 			for i := 0; i < n; i++ {
 				tmp[i] = copyVal(src.a[i])
 			}
-			copy(dst.a, tmp)
+			for i := 0; i < n; i++ {
+				storeInto(&dst.a[i], tmp[i])
+			}
 			return tt.BV(64, uint64(n))
 		case Str:
 			n := len(dst.a)
